@@ -250,7 +250,7 @@ Ltac reflect_bools :=
   | |- ?G = true =>
       let f := eval pattern e in G in
       match f with
-      | ?g e => apply (ball_spec n g); [vm_compute; reflexivity | exact L]
+      | ?g e => refine (ball_spec n g _ e L); vm_compute; reflexivity
       end
   end.
 
@@ -273,10 +273,10 @@ Ltac simp_scores facts :=
 
 Ltac open_named :=
   intros fname header trailer (ext & Hin & Hew) Hfam;
-  cbn [usual_exts In] in Hin; cbn [family family0] in Hfam; unfold starts, has in Hfam;
+  cbn [usual_exts In] in Hin; cbn [family family0] in Hfam; unfold starts, has, m_ID3, m_OggS, m_fLaC, m_ftyp, m_WAVE, m_ASF in Hfam;
   unfold picks; destruct trailer as [footer|]; cbn [ape_in_trailer] in Hfam.
 Ltac open_nameless :=
-  intros header trailer Hfam; cbn [family family0] in Hfam; unfold starts, has in Hfam;
+  intros header trailer Hfam; cbn [family family0] in Hfam; unfold starts, has, m_ID3, m_OggS, m_fLaC, m_ftyp, m_WAVE, m_ASF in Hfam;
   unfold picks; destruct trailer as [footer|]; cbn [ape_in_trailer] in Hfam.
 
 (* goal: picks k fname header trailer (unfolded); Hsw : starts_with M header = true;
@@ -287,4 +287,4 @@ Ltac decide_named Hsw Hew := simp_scores ltac:(sw_facts Hsw; ew_facts Hew); fini
 Ltac decide_nameless Hsw := simp_scores ltac:(sw_facts Hsw); finish.
 
 (* one case per usual extension (Hin : In ext [...], Hew : ends_with ext (lower fname) = true) *)
-Ltac each_ext Hsw := repeat (destruct Hin as [<-|Hin]; [decide_named Hsw Hew|]); try contradiction.
+Ltac each_ext Hin Hew Hsw := repeat (destruct Hin as [<-|Hin]; [decide_named Hsw Hew|]); try contradiction.
